@@ -40,6 +40,9 @@ fn main() {
         match prop.as_str() {
             "C01" => checks::c01::replay(&ctx, body),
             "C11" => checks::c11::replay(&ctx, body),
+            "C12" => checks::c12::replay(&ctx, body),
+            "C02" => checks::c02::replay(&ctx, body),
+            "C03" => checks::c03::replay(&ctx, body),
             "C05" => checks::c05::replay(&ctx, body),
             "C06" => checks::c06::replay(&ctx, body),
             "C07" => checks::c07::replay(&ctx, body),
@@ -59,6 +62,9 @@ fn main() {
         match prop.as_str() {
             "C01" => checks::c01::run(&ctx),
             "C11" => checks::c11::run(&ctx),
+            "C12" => checks::c12::run(&ctx),
+            "C02" => checks::c02::run(&ctx),
+            "C03" => checks::c03::run(&ctx),
             "C05" => checks::c05::run(&ctx),
             "C06" => checks::c06::run(&ctx),
             "C07" => checks::c07::run(&ctx),
